@@ -1,17 +1,18 @@
 // oracle.go: the offline oracle over one scenario's recorded event log.
 //
 // Event kinds (all stamped by one monotonic clock at the client boundary):
-//   add.call/add.ret   AddTask(id, kind:challenge[:probe], target tag)          rm.call/rm.ret  RemoveTask(id)
-//   rm.buffered        Seq = reports already in the channel or read when RemoveTask returned
-//   asked              keeper of collector N asked (X = kind:challenge)  -> "the task reached the collector"
-//   sent.call/sent.ret collector N reports (Task, payload marker P, Seq) to its superior
-//   fwd                a pool's RemoteCollector hands a report to its superior (Tag assigned here)
-//   recv / recv.closed read from the channel AddTask returned (Seq = index in channel order)
-//   sub.call/sub.ret, unsub.call/unsub.ret   Subscribe/Unsubscribe of link N (lc:<collector> | conn:<node>) with Tag at superior X
-//   link.down          the driver is about to stop/drop something that ends link N
-//   stop.call/.ret, drop.call/.ret, stall.call/.ret, late.call/.ret   injected events
-//   open               a call that had not returned at the watchdog + analysis of the goroutine dump
-//   wait.timeout       the driver waited the whole watchdog for answers that did not come
+//
+//	add.call/add.ret   AddTask(id, kind:challenge[:probe], target tag)          rm.call/rm.ret  RemoveTask(id)
+//	rm.buffered        Seq = reports already in the channel or read when RemoveTask returned
+//	asked              keeper of collector N asked (X = kind:challenge)  -> "the task reached the collector"
+//	sent.call/sent.ret collector N reports (Task, payload marker P, Seq) to its superior
+//	fwd                a pool's RemoteCollector hands a report to its superior (Tag assigned here)
+//	recv / recv.closed read from the channel AddTask returned (Seq = index in channel order)
+//	sub.call/sub.ret, unsub.call/unsub.ret   Subscribe/Unsubscribe of link N (lc:<collector> | conn:<node>) with Tag at superior X
+//	link.down          the driver is about to stop/drop something that ends link N
+//	stop.call/.ret, drop.call/.ret, stall.call/.ret, late.call/.ret   injected events
+//	open               a call that had not returned at the watchdog + analysis of the goroutine dump
+//	wait.timeout       the driver waited the whole watchdog for answers that did not come
 package main
 
 import (
@@ -195,6 +196,7 @@ func judge(rec *Rec) *verdict {
 			if t := tasks[e.Task]; t != nil {
 				t.waited, t.waitX = true, e.X
 			}
+			v.cnt["driver_waited_whole_watchdog:"+strings.SplitN(e.X, ":", 2)[0]]++
 		case "open":
 			opens[e.C] = e
 		}
@@ -339,6 +341,34 @@ func judge(rec *Rec) *verdict {
 				attrs["trigger"] = "undelivered-reports<=10"
 				if und > 10 {
 					attrs["trigger"] = "undelivered-reports>10(result channel full)"
+				}
+			}
+		}
+		if e.K == "add.call" {
+			// is some other task's result channel full at this moment?
+			attrs["trigger"] = "none-identified"
+			for _, t := range torder {
+				if t.id == e.Task || t.addCall > e.T {
+					continue
+				}
+				und := 0
+				got := map[string]int{}
+				for _, r := range t.recvs {
+					if r.T < e.T {
+						got[r.P]++
+					}
+				}
+				for _, s := range sents {
+					if s.task == t.id && s.call < e.T {
+						if got[s.p] > 0 {
+							got[s.p]--
+						} else {
+							und++
+						}
+					}
+				}
+				if und > 10 {
+					attrs["trigger"] = "undelivered-reports>10-on-another-task(its result channel is full)"
 				}
 			}
 		}
